@@ -760,6 +760,19 @@ class Ctx(object):
         gs = z3.simplify(g)
         if z3.is_true(gs):
             ob = Obligation(name, kind, 'proved', 0.0, 'simplifier', path, where=where)
+        elif z3.is_false(gs):
+            # concretely false on this path: any model of the path condition is a counterexample
+            mj = None
+            try:
+                sl = z3.Solver()
+                sl.set('timeout', 5000)
+                for h in self.hyps(inst):
+                    sl.add(h)
+                if sl.check() == z3.sat:
+                    mj = self.concretise(sl.model())
+            except Exception:
+                pass
+            ob = Obligation(name, kind, 'refuted', time.time() - t0, 'simplifier', path, mj, 'clause is false on this path', where)
         else:
             hs = self.hyps(inst)
             verdict, model, backend, reason = discharge(hs, g, timeout or self.run.timeout_ms)
@@ -927,3 +940,67 @@ def model_value(model, x):
     if n is not None:
         return n
     raise ValueError('no numeral for %s' % v)
+
+
+# ----------------------------------------------------------------------------------------------------
+# IEEE-754 double values (only for the obligations explicitly marked FP64, DESIGN 3.1)
+# ----------------------------------------------------------------------------------------------------
+FP64 = z3.Float64()
+RNE = z3.RNE()
+
+
+class FPV(object):
+    """a python float modelled exactly as an IEEE double (round to nearest even); comparisons with NaN
+    are false as in Python"""
+    __slots__ = ('t',)
+    __hash__ = object.__hash__
+
+    def __init__(self, t):
+        self.t = t
+
+    @staticmethod
+    def of(x):
+        if isinstance(x, FPV):
+            return x
+        if isinstance(x, (int, Fraction)):
+            return FPV(z3.FPVal(float(x), FP64))
+        if isinstance(x, float):
+            return FPV(z3.FPVal(x, FP64))
+        raise Unsupported('FP64 mode: cannot mix with %r' % (x,))
+
+    def __add__(self, o): return FPV(z3.fpAdd(RNE, self.t, FPV.of(o).t))
+    def __radd__(self, o): return FPV(z3.fpAdd(RNE, FPV.of(o).t, self.t))
+    def __sub__(self, o): return FPV(z3.fpSub(RNE, self.t, FPV.of(o).t))
+    def __rsub__(self, o): return FPV(z3.fpSub(RNE, FPV.of(o).t, self.t))
+    def __mul__(self, o): return FPV(z3.fpMul(RNE, self.t, FPV.of(o).t))
+    def __rmul__(self, o): return FPV(z3.fpMul(RNE, FPV.of(o).t, self.t))
+    def __truediv__(self, o): return FPV(z3.fpDiv(RNE, self.t, FPV.of(o).t))
+    def __neg__(self): return FPV(z3.fpNeg(self.t))
+    def __lt__(self, o): return SV(z3.fpLT(self.t, FPV.of(o).t))
+    def __le__(self, o): return SV(z3.fpLEQ(self.t, FPV.of(o).t))
+    def __gt__(self, o): return SV(z3.fpGT(self.t, FPV.of(o).t))
+    def __ge__(self, o): return SV(z3.fpGEQ(self.t, FPV.of(o).t))
+    def __eq__(self, o): return SV(z3.fpEQ(self.t, FPV.of(o).t))
+    def __ne__(self, o): return SV(z3.Not(z3.fpEQ(self.t, FPV.of(o).t)))
+    def is_nan(self): return SV(z3.fpIsNaN(self.t))
+    def is_inf(self): return SV(z3.fpIsInf(self.t))
+    def is_finite(self): return SV(z3.And(z3.Not(z3.fpIsNaN(self.t)), z3.Not(z3.fpIsInf(self.t))))
+
+    def __repr__(self):
+        return 'FPV(%s)' % self.t
+
+
+def fp_ite(c, a, b):
+    return FPV(z3.If(zbool(c), FPV.of(a).t, FPV.of(b).t))
+
+
+_ite_real = ite
+
+
+def ite(c, a, b):  # noqa: F811  (extends ite to FP64 values)
+    if isinstance(a, FPV) or isinstance(b, FPV):
+        c = _generic(c)
+        if isinstance(c, (bool, int)):
+            return a if c else b
+        return fp_ite(c, a, b)
+    return _ite_real(c, a, b)
